@@ -124,6 +124,17 @@ def uncertainty_set(r, z, tags, conic=False):
         tags.add('set:norm2'); tags.add('set:norm2-nonunit' if (rad != 1 or mult != 1) else 'set:norm2-unit')
         if r.random() < 0.4:
             cons.append(z <= z0 + 1.0); tags.add('set:ub')
+        if r.random() < 0.35:
+            # a second ball of radius exactly 1 (both cone heads then meet in one row of the counterpart with coefficient 1)
+            if nz >= 2 and r.random() < 0.6:
+                # two plain unit balls on overlapping slices (no centre, no multiplier): cone columns with unit coefficients
+                k = int(r.integers(1, nz))
+                cons = [rso.norm(z[:k + 1]) <= 1, rso.norm(z[k - 1 if k > 1 else 0:]) <= 1] if nz > 2 else [rso.norm(z) <= 1, rso.norm(z[1:]) <= 1]
+                z0 = np.zeros(nz); tags.add('set:two-unit-balls')
+            else:
+                off = np.zeros(nz); off[0] = 0.5
+                cons.append(rso.norm(z - (z0 + off), 2) <= 1.0)
+            tags.add('set:two-norm2')
     elif conic:
         rad = float(r.choice([1., 2.]))
         cons.append(rso.sumsqr(z - z0) <= rad); tags.add('set:sumsqr')
